@@ -11,6 +11,7 @@ mod c10;
 mod c11;
 mod c12;
 mod c13;
+mod c14;
 mod c16;
 mod c17;
 mod c18;
@@ -96,6 +97,8 @@ fn main() {
         ("C12", Some(a)) => c12::replay(a),
         ("C13", None) => c13::run(&tier, seed),
         ("C13", Some(a)) => c13::replay(a),
+        ("C14", None) => c14::run(&tier, seed),
+        ("C14", Some(a)) => c14::replay(a),
         ("C16", None) => c16::run(&tier, seed),
         ("C16", Some(a)) => c16::replay(a),
         ("C17", None) => c17::run(&tier, seed),
